@@ -9,6 +9,7 @@ import (
 	"encoding/json"
 	"fmt"
 	"io"
+	"math"
 	"os"
 	"os/exec"
 	"reflect"
@@ -133,6 +134,14 @@ type orderFileSpec struct {
 	Alias  map[string]string `json:"alias"`
 	Own    []string          `json:"own"`
 	Idents []string          `json:"idents"` // predeclared-identifier helpers (Rune, String, ...) this File chains onto / uses as operands
+	Lits   []int             `json:"lits"`   // indices into orderLits: the literals this File contains
+}
+
+// literals whose texts could be confused by a table shared between Files: +0 / -0 of every float kind, equal numbers of
+// different types, equal strings
+func orderLits() []interface{} {
+	nz := math.Copysign(0, -1)
+	return []interface{}{0.0, nz, float32(0), float32(nz), complex(0, 0), complex(nz, nz), 1, int64(1), uint8(1), 1.0, float32(1), "s", "S", true, false, 0.1, float32(0.1), float64(float32(0.1))}
 }
 
 // orderRound is one round of the orders experiment: Files that share statements (serialisable, so that a fresh process
@@ -217,6 +226,10 @@ func (rd *orderRound) build(which []int) []*jen.File {
 				f.Var().Id("m" + strconv.Itoa(k)).Map(callHelper(h)).Add(callHelper(sp.Idents[k-1]))
 			}
 		}
+		lits := orderLits()
+		for k, li := range sp.Lits {
+			f.Var().Id("l" + strconv.Itoa(k)).Op("=").Lit(lits[li%len(lits)])
+		}
 		for _, st := range shared {
 			f.Add(st)
 		}
@@ -278,9 +291,13 @@ func cmdConcOrders(args []string) {
 	for round := 0; round < rounds; round++ {
 		nfiles := 3 + r.Intn(2)
 		rd := &orderRound{CaseBlock: r.Intn(2) == 0, FuncForms: round%2 == 1}
-		pool := []string{"x/d", "y/d", "fmt", "loc/al", "dot/p", "z/d"}
+		// (paths whose guessed alias differs from their last element, with and without a dot in the first element)
+		pool := []string{"x/d", "y/d", "fmt", "loc/al", "dot/p", "z/d", "shop/db_models", "shop/DB-models", "a.b/c_d", "v/2x"}
 		for i := 0; i < nfiles; i++ {
-			sp := orderFileSpec{Alias: map[string]string{}, Dots: []string{}, Own: []string{}, Idents: []string{}}
+			sp := orderFileSpec{Alias: map[string]string{}, Dots: []string{}, Own: []string{}, Idents: []string{}, Lits: []int{}}
+			for k := 0; k < r.Intn(4); k++ {
+				sp.Lits = append(sp.Lits, r.Intn(18))
+			}
 			sp.Prefix = []string{"", "pkg", "p2"}[r.Intn(3)]
 			if r.Intn(3) == 0 {
 				sp.Local = pool[r.Intn(len(pool))]
